@@ -1,5 +1,6 @@
 """C12 -- Printed values read back as equal values (string part: proof; other literal values: search)."""
 import decimal
+import json
 import struct
 
 from vplib import common, oracle
@@ -7,7 +8,11 @@ from props import C01 as L
 
 LEVEL = "proof"
 RULE = ("Coq: Properties/C12.v (string_token_roundtrip for ALL strings and ALL following text, printed_string_is_one_token, "
-        "printed_string_lexes over coq/Lex.v). Dynamic: (1) model `escape` vs what the implementation prints for a string "
+        "printed_string_lexes over coq/Lex.v; literal_roundtrip_partial for ALL values of the literal fragment over "
+        "coq/ReadLit.v). Dynamic: (0) the literal reader model vs the real parser: on the text garden prints for generated "
+        "values of the fragment, on edge cases and on mutated texts, whenever the model reads a value the hook op `sexp` "
+        "must give exactly that tree with no errors, the model must read every printed value of the fragment as the value "
+        "that was printed, and the model's `show` must equal what garden printed; (1) model `escape` vs what the implementation prints for a string "
         "value, model `unescape` vs what the implementation reads from a string token, and the real lexer on "
         "`printed string ++ rest` (the token must be exactly the printed string); (2) generated literal values V "
         "(strings over an alphabet with quote, backslash, newline, tab, 2/3/4-byte chars; nested lists / tuples / "
@@ -19,15 +24,21 @@ RULE = ("Coq: Properties/C12.v (string_token_roundtrip for ALL strings and ALL f
 META = {
     "technique": ("Coq proof over executable models of escape_string_literal / STRING_RE / unescape_string + differential "
                   "execution of the extracted models vs the binary + print/read/print fixed-point search on the binary"),
-    "level_text": ("STRING PART (proved): Coq theorem string_token_roundtrip: for ALL strings s (any scalar values) and ALL "
+    "level_text": ("LITERAL FRAGMENT (proved): Coq theorem literal_roundtrip_partial: for ALL values built from i64 integers "
+                   "(incl. i64::MIN), strings over all scalar values, True/False/Unit/None, Some/Ok/Err, lists and tuples "
+                   "(incl. 1-tuples and the empty tuple), nested to any depth: the printed text lexes with no errors into "
+                   "tokens that the literal reader (model of the parser's success paths: parse_integer with `_` and the "
+                   "i64 range, unescape_string, tuple / list / call parsing) turns back into exactly that value. "
+                   "STRING PART (proved): Coq theorem string_token_roundtrip: for ALL strings s (any scalar values) and ALL "
                    "following text, the STRING scanner applied to `escape s ++ rest` consumes exactly `escape s`, and "
                    "unescape (escape s) = s with no diagnostics; in any context the lexer iteration at a printed string "
-                   "yields exactly that token; the whole lexer on a printed string yields one token. OTHER VALUES "
-                   "(lists, tuples, dicts, Option/Result, structs, ints, floats): NOT proved -- they need the parser, "
-                   "display and evaluator models; covered by search. Floats: Rust's shortest round-trip "
+                   "yields exactly that token; the whole lexer on a printed string yields one token. NOT proved: floats, dicts, structs (outside the "
+                   "fragment; search only), and the evaluator (the reader interprets True .. Err(x) as the prelude's "
+                   "constructors; evaluation of literals is covered by the print/read/print search). Floats: Rust's shortest round-trip "
                    "printing/parsing is std, modelled-not-verified, search only."),
     "level_note": ("Trusted: Coq kernel; coq/Lex.v meanings of escape_string_literal, STRING_RE (as a scanner), "
-                   "unescape_string (modelled, tied by differential runs); extraction + ocaml/ops_lex.ml; JSON session "
+                   "unescape_string; coq/ReadLit.v `show` (Value::display on the fragment) and `read_literal` (parser success paths) "
+                   "-- own small value tree, not Value.v's (modelled, tied by differential runs against string_repr and hook op sexp); extraction + ocaml/ops_lex.ml; JSON session "
                    "as oracle. Equality of the re-read value is judged on PRINTED FORMS (print, read, print again: fixed "
                    "point) and, for strings, on the raw characters, NOT with Garden's `==`, because `==` on floats and "
                    "dicts is itself the subject of C13."),
@@ -141,6 +152,53 @@ def gen_value(rng, d):
         keys = rng.sample(KEYS, rng.randint(0, 3))
         return ("dict", [(a, gen_value(rng, d - 1)) for a in keys])
     return ("struct", rng.choice(INTS), gen_str(rng))
+
+
+def in_fragment(v):
+    """values the Coq theorem literal_roundtrip_partial is about"""
+    return not (has(v, "float") or has(v, "dict") or has(v, "struct"))
+
+
+def tree(v):
+    """the parser's tree of the literal, as hook op `sexp` writes it"""
+    k = v[0]
+    if k == "str":
+        return "(str %s)" % py_escape(v[1])
+    if k == "int":
+        return "(int %d)" % v[1]
+    if k == "bool":
+        return "(var True)" if v[1] else "(var False)"
+    if k == "unit":
+        return "(var Unit)"
+    if k == "none":
+        return "(var None)"
+    if k in ("some", "ok", "err"):
+        return "(call (var %s) (args %s))" % ({"some": "Some", "ok": "Ok", "err": "Err"}[k], tree(v[1]))
+    if k in ("list", "tuple"):
+        return "(" + " ".join([k] + [tree(x) for x in v[1]]) + ")"
+    raise ValueError(k)
+
+
+def mutate_literal(rng, text):
+    """small edits of a printed literal: the reader model must never accept what the parser reads differently"""
+    s = text
+    for _ in range(rng.randint(1, 2)):
+        k = rng.random()
+        i = rng.randrange(len(s) + 1)
+        if k < 0.25 and s:
+            j = min(len(s) - 1, i)
+            s = s[:j] + s[j + 1:]
+        elif k < 0.55:
+            s = s[:i] + rng.choice([",", " ", "(", ")", "[", "]", "_", "-", "1", "9", "\"", "Some", "None", "\n", ".", "+", "=", "{"]) + s[i:]
+        elif k < 0.7:
+            s = s.replace(", ", rng.choice([",", " ,  ", ",\n", " "]), 1)
+        elif k < 0.8:
+            s = s.replace("(", " (", 1)
+        elif k < 0.9:
+            s = s.replace(")", ",)", 1) if rng.random() < 0.5 else s.replace("]", ",]", 1)
+        else:
+            s = s + rng.choice(["", " ", "(1)", "[0]", " + 1", ".len()", "\n2"])
+    return s
 
 
 def vclass(v):
@@ -316,6 +374,46 @@ def run(ctx):
             ctx.violation("C12:value:unexpected-print:" + vclass(v),
                           "%s prints as %s (expected the literal itself)" % (lits[i][:200], T1[i][:200]),
                           {"input": lits[i], "observed": T1[i], "expected": lits[i], "cli_command": cli})
+    # ---- literal reader model (coq/ReadLit.v) vs the real parser ---------------------------------
+    if mdl:
+        frag = [i for i in range(len(vals)) if in_fragment(vals[i]) and T1[i] is not None]
+        texts = [T1[i] for i in frag]
+        extra = ["9223372036854775807", "-9223372036854775808", "9223372036854775808", "-9223372036854775809", "1_000", "1_", "007",
+                 "-0", "(1)", "(1,)", "(1, 2,)", "[1, 2,]", "[1 2]", "Some (1)", "Some(1, 2)", "Some()", "Some(1,)", "None(1)", "True{}",
+                 "[1, -2]", "[1 -2]", "(-1)", "1.5", "[1.5]", "\"a\\z\"", "()", "( )", "[]", "[ ]", "(,)", "[,]", "((),)", "[[[]]]",
+                 "Ok(Err(Some(())))", "Unit", "[True,False]", "[ True , False ]", "(1\n,2)", "99999999999999999999", "-_1", "1__0"]
+        muts = [mutate_literal(rng, rng.choice(texts)) for _ in range(6000 if ctx.thorough else 900)] if texts else []
+        allt = texts + extra + muts
+        ctx.log("reading %d literal texts with the model and the parser" % len(allt))
+        rc, mo, err = common.run_lines(mdl, [], ["readlit\t" + L.hx(t) for t in allt], shards=common.NCPU)
+        pr = L.batch_all(exe, [{"op": "sexp", "src": t} for t in allt])
+        bad = []
+        for j, (t, m, r) in enumerate(zip(allt, mo, pr)):
+            kind = "printed" if j < len(texts) else "edge" if j < len(texts) + len(extra) else "mutated"
+            f = m.split("\t")
+            ctx.case({"readlit": t[:160]}, len(t) > 2)
+            parser_items = r.get("items")
+            parser_clean = parser_items is not None and not r.get("errors")
+            if f[0] == "none" or len(f) != 2:
+                ctx.stat("readlit %s: model refuses" % kind)
+                if kind == "printed":
+                    bad.append({"text": t, "model": m, "parser": str(r)[:200], "why": "model refuses a printed value of the fragment"})
+                continue
+            ctx.stat("readlit %s: model reads" % kind)
+            mtree = common.unhex(f[0]).decode("utf-8")
+            if not (parser_clean and parser_items == [mtree]):
+                bad.append({"text": t, "model": mtree, "parser": str(r)[:300], "why": "the parser's tree differs or it reports errors"})
+            if kind == "printed":
+                i = frag[j]
+                if mtree != tree(vals[i]):
+                    bad.append({"text": t, "model": mtree, "expected": tree(vals[i]), "why": "the tree read is not the value that was printed"})
+                if common.unhex(f[1]).decode("utf-8") != t:
+                    bad.append({"text": t, "model_show": common.unhex(f[1]).decode("utf-8"), "why": "model show differs from what garden printed"})
+        if bad:
+            ctx.cov["corr_readlit"] = bad[:8]
+            ctx.broken("correspondence:readlit", "literal reader model and the parser differ on %d texts, e.g. %s"
+                       % (len(bad), json.dumps(bad[:2], ensure_ascii=False)))
+
     ctx.notes.append("equality of the re-read value is judged on printed forms (print/read/print fixed point, plus the "
                      "independently written literal) and raw characters for strings; Garden `==` is not used (C13)")
     ctx.notes.append("floats: correspondence/search only (Rust shortest round-trip formatting is std, not modelled)")
